@@ -180,8 +180,15 @@ func main() {
 			rep.Harness = err.Error()
 			break
 		}
-		if rr.Out.Class == "harness" || rr.Out.Class == "budget" {
+		if rr.Out.Class == "harness" {
 			rep.Harness = rr.Out.Class + ": " + rr.Out.Msg
+			break
+		}
+		if rr.Out.Class == "budget" {
+			// an unusually long run: not judged (counted), and the process cannot run another simulation
+			st.Inconclusive++
+			st.Probe("run_abandoned_step_budget")
+			rep.Tainted = true
 			break
 		}
 		st.AddOutcome(rr.Out)
